@@ -1,9 +1,32 @@
 package conf
 
+import (
+	"encoding/json"
+)
+
 // AuthInternalUser is an user.
 type AuthInternalUser struct {
 	User        Credential                   `json:"user"`
 	Pass        Credential                   `json:"pass"`
 	IPs         IPNetworks                   `json:"ips"`
 	Permissions []AuthInternalUserPermission `json:"permissions"`
+}
+
+// MarshalJSON implements json.Marshaler.
+func (u AuthInternalUser) MarshalJSON() ([]byte, error) {
+	// nil lists are encoded as empty lists and not as null, that is rejected
+	// when decoding: otherwise users without IPs (or without permissions)
+	// make the configuration returned by the API impossible to write back.
+	type alias AuthInternalUser
+	a := alias(u)
+
+	if a.IPs == nil {
+		a.IPs = IPNetworks{}
+	}
+
+	if a.Permissions == nil {
+		a.Permissions = []AuthInternalUserPermission{}
+	}
+
+	return json.Marshal(a)
 }
